@@ -24,6 +24,12 @@ Abstractions (trusted base, exercised by the correspondence):
 * the header docstring / `comment=` of the table (docstring emitter and parser) is not modelled; a class body keeps
   only the *kind* of each statement.
 * `repr` of a Literal member is `'` + member + `'` (members are plain: no quote, backslash, control character).
+* not modelled (never produced on the property's domain): `x_typ.sql.type_args` / `type_kwargs` / `default`,
+  constraints other than `server_default`, the `[schema=…]` comment of a `dict` parameter carrying an `ir`,
+  a description that is `None`, `Union` of other than two members, `generate_repr_method` /
+  `generate_create_from_attr_staticmethod` (a class body keeps `funcDef` placeholders), `ensure_valid_identifier`.
+  Where the parser model meets a call it cannot read faithfully it answers `.error "unmodelled"`, and the harness
+  skips (and counts) that comparison.
 -/
 namespace Sql
 open Py
